@@ -84,6 +84,50 @@ Definition show_x (r : res bytes) : string :=
   | OutOfFuel => "outoffuel"
   end.
 
+(* timed datagram exchange (times in microseconds):
+   args = qid, Client.Timeout, Client.ReadTimeout, context deadline or "none",
+   foreign stream "first.every.count", foreign IDs "a.b.c" (used cyclically, each
+   reply a bare 12-octet response header), matching reply "at:hex" or "" *)
+Definition hdr_only (id : N) : bytes := (u16 id ++ [128; 0; 0; 0; 0; 0; 0; 0; 0; 0])%list.
+
+Fixpoint foreign_stream (n : nat) (at_ every : N) (ids rest : list N) : list (N * bytes) :=
+  match n with
+  | O => []
+  | S n' =>
+    match rest with
+    | [] => match ids with
+            | [] => []
+            | id :: r => (at_, hdr_only id) :: foreign_stream n' (N.add at_ every) every ids r
+            end
+    | id :: r => (at_, hdr_only id) :: foreign_stream n' (N.add at_ every) every ids r
+    end
+  end.
+
+(* the matching reply takes its place in arrival order (before a foreign reply of the same instant) *)
+Fixpoint insert_arrival (a : N * bytes) (l : list (N * bytes)) : list (N * bytes) :=
+  match l with
+  | [] => [a]
+  | b :: r => if (fst a <=? fst b)%N then a :: l else b :: insert_arrival a r
+  end.
+
+Definition timed_arrivals (stream ids mtch : string) : list (N * bytes) :=
+  let f := split_on dot stream in
+  let idl := map undec (split_on dot ids) in
+  let fs := match idl with
+            | [] => []
+            | _ => foreign_stream (undecn (nth 2 f "")) (undec (nth 0 f "")) (undec (nth 1 f "")) idl idl
+            end in
+  match split_on ":"%char mtch with
+  | [t; h] => insert_arrival (undec t, unhex h) fs
+  | _ => fs
+  end.
+
+Definition run_timed (args : list string) : string :=
+  let ctx := if String.eqb (arg args 3) "none" then None else Some (undec (arg args 3)) in
+  let d := exchange_deadline (undec (arg args 1)) (undec (arg args 2)) ctx in
+  show_x (exchange_dgram_timed (fun _ => true) 512 (undec (arg args 0)) d
+                               (timed_arrivals (arg args 4) (arg args 5) (arg args 6))).
+
 Definition run (fn : string) (args : list string) : string :=
   if String.eqb fn "readtcp" then
     show_msgs (serve_tcp (undecn (arg args 2)) (chunks (arg args 0) (arg args 1)))
@@ -101,4 +145,5 @@ Definition run (fn : string) (args : list string) : string :=
   else if String.eqb fn "xdgram" then
     show_x (exchange_dgram (decodes_of (arg args 3)) (undecn (arg args 1)) (undec (arg args 0))
                            (map (fun x => unhex (tail x)) (split_on comma (arg args 2))))
+  else if String.eqb fn "xtimed" then run_timed args
   else "unknown-fn".
